@@ -143,6 +143,11 @@ Definition w_lang (q : bool) (l : option (list bytes)) : wr :=
 Definition w_encoding (q : bool) (enc : bytes) : wr :=
   if is_nil enc then w_string q (s2b "7BIT") else w_string q (ascii_upper enc).
 
+(* strings.EqualFold on the media type (server: writeBodyType1part; client: readBodyType1part) *)
+Definition is_message_type (typ subtyp : bytes) : bool :=
+  equal_fold_go typ (s2b "message") && (equal_fold_go subtyp (s2b "rfc822") || equal_fold_go subtyp (s2b "global")).
+Definition is_text_type (typ : bytes) : bool := equal_fold_go typ (s2b "text").
+
 (* writeBodyStructure / writeBodyType1part / writeBodyTypeMpart.  None also stands for the
    panics: a multipart without children, extended data requested from a node without it *)
 Fixpoint w_body (x : ext) (q : bool) (extended : bool) (b : bstruct) : wr :=
@@ -154,7 +159,11 @@ Fixpoint w_body (x : ext) (q : bool) (extended : bool) (b : bstruct) : wr :=
       (match msg with
        | Some (e, b', lines) =>
            ws " " +++ w_envelope x q e +++ ws " " +++ w_body x q extended b' +++ ws " " +++ w_num64 lines
-       | None => match text with Some lines => ws " " +++ w_num64 lines | None => Some [] end
+       | None =>
+           match text with
+           | Some lines => ws " " +++ w_num64 lines
+           | None => if is_text_type typ then ws " " +++ w_num64 0%Z else Some []   (* body-type-text always has its line count *)
+           end
        end) +++
       (if extended then
          match ext with
@@ -291,19 +300,21 @@ Fixpoint map_set (k v : bytes) (m : list (bytes * bytes)) : list (bytes * bytes)
   end.
 
 (* the state machine of readBodyFldParam's callback over the strings of the list:
-   k = "" means "expecting a key"; None = "key without value" *)
-Fixpoint pair_params (x : ext) (l : list bytes) (k : bytes) (m : params) : option params :=
+   k = None (hasKey = false) means "expecting a key"; result None = "key without value" *)
+Fixpoint pair_params (x : ext) (l : list bytes) (k : option bytes) (m : params) : option params :=
   match l with
-  | [] => if is_nil k then Some m else None
+  | [] => match k with None => Some m | Some _ => None end
   | s :: r =>
-      if is_nil k then pair_params x r s m
-      else pair_params x r [] (Some (map_set (ascii_lower k) (decode_text x s) (match m with Some m => m | None => [] end)))
+      match k with
+      | None => pair_params x r (Some s) m
+      | Some k => pair_params x r None (Some (map_set (ascii_lower k) (decode_text x s) (match m with Some m => m | None => [] end)))
+      end
   end.
 
 (* readBodyFldParam *)
 Definition read_params (x : ext) (s : bytes) : dres params :=
   do l, r <- ex_nlist ex_string s;
-  match pair_params x l [] None with Some p => DOk p r | None => DErr end.
+  match pair_params x l None None with Some p => DOk p r | None => DErr end.
 
 (* readBodyFldDsp *)
 Definition read_disp (x : ext) (s : bytes) : dres dispo :=
@@ -367,9 +378,6 @@ Definition dec_octets (s : bytes) : dres N :=
   | DNo _ => ex_number s
   end.
 
-Definition is_message_type (typ subtyp : bytes) : bool :=
-  equal_fold_go typ (s2b "message") && (equal_fold_go subtyp (s2b "rfc822") || equal_fold_go subtyp (s2b "global")).
-Definition is_text_type (typ : bytes) : bool := equal_fold_go typ (s2b "text").
 
 (* readBody / readNestedBody / readBodyType1part / readBodyTypeMpart; depth is the nesting
    level (maxBodyDepth = 1000); fuel only makes the recursion structural *)
